@@ -836,7 +836,7 @@ Proof.
 Qed.
 
 Lemma descendants_cost_ladder2_14 : descendants_paths_cost (ladder 2 14) 0 = 2 ^ 15 - 1.
-Proof. vm_compute. reflexivity. Qed.
+Proof. apply Nat.eqb_eq. vm_compute. reflexivity. Qed.
 
 Lemma chain_same_size_linear : size (chain 30) = size (ladder 2 14) /\ select_paths_cost (chain 30) 29 = 30.
 Proof. split; [vm_compute; reflexivity | apply (select_cost_chain 30); lia]. Qed.
@@ -903,7 +903,8 @@ Proof.
               ** intros x Hx. apply in_app_or in Hx. destruct Hx as [Hx | Hx]; [exact (E4 x Hx) |].
                  apply in_app_or in Hx. destruct Hx as [Hx | [E | []]]; [exact (F4 x Hx) |].
                  subst x. apply HN. left. reflexivity.
-              ** rewrite !wsum_app. unfold wsum at 3. simpl. lia.
+              ** assert (W : wsum next [d] = weight next d) by (unfold wsum, weight; simpl; lia).
+                 rewrite !wsum_app, W. lia.
 Qed.
 
 Lemma dfs_bound next N :
@@ -1049,7 +1050,6 @@ Proof.
   intro Hwf. unfold wsum, weight. rewrite list_sum_map_S, seq_length. f_equal.
   rewrite (map_ext _ _ (dependants_length g)).
   rewrite (list_sum_swap (fun i j => cnt i (deps g j))).
-  rewrite <- (wsum_all_deps g) at 1. fold (size g).
   assert (E : forall j, In j (seq 0 (size g)) ->
                         list_sum (map (fun i => cnt i (deps g j)) (seq 0 (size g))) = length (deps g j)).
   { intros j _. apply cnt_sum. intros x Hx. exact (Hwf j x Hx). }
